@@ -106,6 +106,7 @@ void sim_yield(void);
 /* ---- phases ---- */
 // end of fault phase: no more faults or random pre-emptions, fair scheduling
 void sim_set_fair(void);
+void sim_arm_stall(uint32_t rel_hooks, int duration_code);   // workload-placed stall of the calling thread
 int sim_is_fair(void);
 
 /* ---- watch ranges ---- */
